@@ -1,9 +1,13 @@
 import Verif.Util.Proto
 import Verif.Model.Codec.CValueSx
 import Verif.Model.Codec.Ccf
+import Verif.Model.Codec.CcfDecode
 import Verif.Util.CodecDrv
-/-! Driver for stream `ccf` (C42): ops `enc <mode> <sx>`, `rt <sx>`, `perm <sx> <sx'>`, `strict <mode> <sx>`, `mutb <hex>`. -/
+/-! Driver for stream `ccf` (C42): ops `enc <mode> <sx>`, `rt <sx>`, `perm <sx> <sx'>`, `strict <mode> <sx>`,
+`mutb <hex>`, `hand <sorted|unsorted|dup> <hex>`.  Every Go decoder result is also compared with the port
+of the decoder (`Verif.Model.Codec.CcfDecode`, MODELDIFF). -/
 open Verif.Proto Verif.Model.Codec Verif.Model.Codec.Ccf Verif.Util.CodecDrv
+open Verif.Model.Codec.CcfDecode (DMode)
 
 namespace DrvCcf
 
@@ -15,6 +19,23 @@ def renderE (r : E (List UInt8)) : String :=
   | .error .err => "err"
   | .error .unexpected => "panic"
   | .error (.ood w) => "ood:" ++ w
+
+/-- the port of the decoder on the bytes: `ok:<sx>`, `err`, or `ood:<why>` (outside the model) -/
+def renderD (r : CcfDecode.D CValue) : String :=
+  match r with
+  | .ok v => "ok:" ++ showValue v
+  | .error .err => "err"
+  | .error (.ood w) => "ood:" ++ w
+
+def modelDecodeHex (m : DMode) (hex : String) : String :=
+  match parseHex hex with
+  | some bs => renderD (CcfDecode.decode m bs)
+  | none => "ood:bad-hex"
+
+/-- compare a Go decoder result (`ok:<sx>` / `err`) with the port; `none`: they agree or the input is outside the model -/
+def decDiff (m : DMode) (hex : String) (go : String) : Option String :=
+  let md := modelDecodeHex m hex
+  if md.startsWith "ood:" then none else if md == go then none else some ("dec:" ++ md)
 
 def split3 (s : String) : Option (String × String × String) :=
   match s.splitOn ":" with
@@ -46,12 +67,15 @@ def judgeRt (sx go : String) : Verdict :=
       if "ok:" ++ hex != m then .modelDiff m ("enc-diff" :: tags)
       else
         let cls := if hasFunctionValue v then "ccf-function-value-not-decodable" else "ccf-decoder-rejects-own-encoding"
-        .violation cls ("ok:" ++ spec) ("go-decerr" :: tags)
+        match decDiff DMode.default hex "err" with
+        | some d => .modelDiff d ("go-decerr" :: tags)
+        | none => .violation cls ("ok:" ++ spec) ("go-decerr" :: tags)
     else if go.startsWith "ok:" then
       match split3 ((go.drop 3).toString) with
       | none => .skip "bad-result"
       | some (same, hex, sx2) =>
         if "ok:" ++ hex != m then .modelDiff m ("enc-diff" :: tags)
+        else if let some d := decDiff DMode.default hex ("ok:" ++ sx2) then .modelDiff d ("dec-diff" :: tags)
         else if sx2 != spec then
           let cls := if nilAmbiguous v v.typeOf then "ccf-optional-nil-ambiguity" else "ccf-roundtrip-not-equal"
           .violation cls ("ok:" ++ spec) tags
@@ -83,6 +107,7 @@ def judgeStrict (mode sx go : String) : Verdict :=
     let mm := renderE (encode (modeOf mode) v)
     if md.startsWith "ood:" || mm.startsWith "ood:" then .skip "ood"
     else if !(mm.startsWith "ok:") then (if go == "encerr" || go == "panic" then .ok ["strict", "strict-encerr"] else .modelDiff mm ["strict"])
+    else if let some d := decDiff DMode.strict (mm.drop 3).toString go then .modelDiff d ["strict", "dec-diff"]
     else if hasFunctionValue v then .skip "function-value"
     else if nilAmbiguous v v.typeOf then .skip "nil-ambiguity"
     else
@@ -101,15 +126,40 @@ def judgeStrict (mode sx go : String) : Verdict :=
         if go == "err" then .ok ["!nt", "strict", "strict-rejects-unsorted"]
         else .violation "ccf-strict-decoder-accepts-unsorted-encoding" "err" ["strict"]
 
+/-- hand-built encodings of dictionaries: `go` = `d:<default decoder>;s:<strict decoder>` -/
+def judgeHand (kind hex go : String) : Verdict :=
+  match go.splitOn ";s:" with
+  | [d, s] =>
+    let d := (d.drop 2).toString
+    if d == "panic" || s == "panic" || d == "hang" || s == "hang" then .violation "ccf-decode-panic" "value-or-error" ["hand", kind] else
+    let tags := ["hand", "hand-" ++ kind]
+    -- the spec: dictionary entries out of order are rejected by every decoder mode; entries in
+    -- strictly increasing order are accepted.  Equal adjacent keys (`dup`) are in order as far as
+    -- `sorted` goes; CCF leaves their rejection to the application ("Decoders are not always
+    -- required to check for duplicate dictionary keys"), so the code's answer is compared with the port only.
+    if kind == "unsorted" && (d != "err" || s != "err") then
+      .violation "ccf-decoder-accepts-unsorted-dictionary" "err" tags
+    else if kind == "sorted" && (d == "err" || s == "err") then
+      .violation "ccf-decoder-rejects-sorted-dictionary" "ok" tags
+    else if let some x := decDiff DMode.default hex d then .modelDiff x tags
+    else if let some x := decDiff DMode.strict hex s then .modelDiff x tags
+    else .ok ("!nt" :: (if d == "err" then "hand-rejected" else "hand-accepted") :: tags)
+  | _ => .skip "bad-result"
+
 def judge (op : List String) (go : String) : Verdict :=
   match op with
   | ["ccf", "enc", mode, sx] => judgeEnc mode sx go
   | ["ccf", "rt", sx] => judgeRt sx go
   | ["ccf", "perm", sx1, sx2] => judgePerm sx1 sx2 go
   | ["ccf", "strict", mode, sx] => judgeStrict mode sx go
-  | ["ccf", "mutb", _] =>
-    if go == "ok" || go == "err" then .ok ["mutb", if go == "ok" then "mutb-ok" else "mutb-err"]
+  | ["ccf", "mutb", hex] =>
+    if go.startsWith "ok:" || go == "err" then
+      let md := modelDecodeHex DMode.default hex
+      if md.startsWith "ood:" then .ok ["mutb", if go == "err" then "mutb-err" else "mutb-ok", "mutb-outside-model"]
+      else if md == go then .ok ["!nt", "mutb", if go == "err" then "mutb-err" else "mutb-ok", "mutb-model-agrees"]
+      else .modelDiff ("dec:" ++ md) ["mutb"]
     else .violation "ccf-decode-panic" "value-or-error" ["mutb"]
+  | ["ccf", "hand", kind, hex] => judgeHand kind hex go
   | _ => .skip "unknown-op"
 
 end DrvCcf
